@@ -287,6 +287,31 @@ func runC02(c *core.Ctx) {
 		}
 	}
 
+	// the clock is not at a whole second: every bound is still evaluated against the reading as it is, to the millisecond
+	c.Group("clock-with-a-sub-second-part")
+	for _, frac := range []time.Duration{time.Millisecond, 250 * time.Millisecond, 999 * time.Millisecond, 500*time.Millisecond + 499*time.Microsecond} {
+		for _, tl := range tols[:2] {
+			for kind := 0; kind < 5; kind++ {
+				for pos := 0; pos < 4; pos++ {
+					for _, lay := range layouts {
+						frac, tl, kind, pos, lay := frac, tl, kind, pos, lay
+						var ps [5]int
+						ps[kind] = pos
+						key := fmt.Sprintf("subsecond-clock/+%s/tol=%s/%s=%s/lay=%s", frac, tl.name, kindNames[kind], posNames[pos], lay)
+						c.Case(key, func(t *core.T) {
+							old := now
+							now = samlgen.T0.Add(frac)
+							harness.SetNow(now)
+							defer func() { now = old; harness.SetNow(old) }()
+							runOne(t, spec{pos: ps, confs: 1, lay: lay}, tl, key)
+							t.NonTrivial()
+						})
+					}
+				}
+			}
+		}
+	}
+
 	c.Group("lexical-forms")
 	for _, tl := range tols {
 		for kind := 0; kind < 5; kind++ {
